@@ -424,14 +424,16 @@ func (rp *RepData) writeToJSON(logger *slog.Logger, repDataDir, assetPath string
 	if err != nil {
 		return err
 	}
-	outDir := path.Join(repDataDir, assetPath)
+	gzipPath := path.Join(repDataDir, assetPath, rp.repDataName()+".gz")
+	// A representation id may contain a path separator ("video/1"): the directory of the file
+	// is then a sub-directory of the asset's metadata directory.
+	outDir := path.Dir(gzipPath)
 	if dirDoesNotExist(outDir) {
 		err := os.MkdirAll(outDir, 0755)
 		if err != nil {
 			return fmt.Errorf("mkdir %s: %w", outDir, err)
 		}
 	}
-	gzipPath := path.Join(outDir, rp.repDataName()+".gz")
 	fh, err := os.Create(gzipPath)
 	if err != nil {
 		return err
